@@ -139,6 +139,10 @@ def run(index, tier="quick", seed=0) -> Result:
         else:
             res.ok("FRAME-1", k, sample={"site": k, "uses": [s[0] for s in sites]})
     from ..parallel import report as _copy1
+    from ..mean1 import check as _mean1
+    for cn_ in ("Polygon", "ConvexPolygon"):
+        _mean1(res, index, cn_, ("centroid", "center", "inertia_tensor", "planar_moments_inertia", "polar_moment_inertia", "area", "signed_area"),
+               "the polygon measures are integrals over the area, not averages over the corners")
     from ..frame3 import check as _frame3
     for cn_ in ("Polygon", "ConvexPolygon"):
         _frame3(res, index, cn_, ("centroid", "inertia_tensor", "planar_moments_inertia", "polar_moment_inertia", "area", "signed_area", "perimeter"))
